@@ -11,7 +11,7 @@ def _c04_runs(b, bg1, b222, sh, extra={}):
         R('c04_bits', 'equal_gray1', bg1, 3), R('c04_bits', 'pairs_gray1', bg1, 2),     # the longest first
         R('c04_bits', 'equal_bits', b222, 3), R('c04_bits', 'pairs_rgb222', b222, 2), R('c04_bits', 'pairs_packed', b222, 2),
         R('c04_bits', 'dst_gray1', bg1, 1), R('c04_bits', 'dst_bits', b222, 1), R('c04_bits', 'convert_bits', b222, 2),
-        R('c04_interleaved', 'pairs_i', b, 2), R('c04_layouts', 'pairs_layouts', b, 2), R('c04_interleaved', 'dst_i', b, 1), R('c04_interleaved', 'equal_i', b, 2),
+        R('c04_interleaved', 'pairs_i', b, 2), R('c04_layouts', 'pairs_layouts', b, 2), R('c04_layouts', 'equal_packed_padding', b, 1), R('c04_interleaved', 'dst_i', b, 1), R('c04_interleaved', 'equal_i', b, 2),
         R('c04_planar', 'pairs_p', b, 2), R('c04_planar', 'dst_p', b, 1), R('c04_planar', 'equal_p', b, 2),
         R('c04_planar', 'image_eq', b, 1),
         R('c04_step', 'pairs_x', b, 1), R('c04_step', 'dst_x', b, 1), R('c04_step', 'equal_x', b, 1),
@@ -57,7 +57,7 @@ CHECKS['C04'] = dict(
         'copy:1d1d:perplane', 'copy:1d2d:perplane', 'copy:2d1d:perplane', 'copy:2d2d:perplane',
         'copy:1d1d:generic', 'copy:1d2d:generic', 'copy:2d1d:generic', 'copy:2d2d:generic',
         'copy:1d1d:bitaligned', 'copy:1d2d:bitaligned', 'copy:2d1d:bitaligned', 'copy:2d2d:bitaligned',
-        'copy_and_convert:compatible', 'copy_and_convert:converting', 'cross_layout_pairs',
+        'copy_and_convert:compatible', 'copy_and_convert:converting', 'cross_layout_pairs', 'equal_packed_unused_bits',
         # fill_pixels: 1-D path and row path per iterator class
         'fill:1d:pixptr', 'fill:rows:pixptr', 'fill:1d:planar', 'fill:rows:planar', 'fill:1d:step', 'fill:rows:step',
         'fill:1d:bit', 'fill:rows:bit', 'fill:1d:packedptr', 'fill:rows:packedptr',
